@@ -39,10 +39,10 @@ let cmd_table (x : sx) : sx =
         (c05_fx_tri_table (z_of_sx n))
   | _ -> failwith "c05_table: expected (kind order)"
 
-(* () -> (default_is_triangular default_order default_latlon) *)
+(* () -> (default_is_triangular default_order default_latlon dim_cartesian3) *)
 let cmd_defaults (_ : sx) : sx =
   L [sx_of_bool (match c05_default_rule with C05_triangular -> true | _ -> false);
-     sx_of_z c05_default_order; sx_of_bool c05_default_latlon]
+     sx_of_z c05_default_order; sx_of_bool c05_default_latlon; sx_of_bool c05_dim_cartesian3]
 
 let commands : (string * (sx -> sx)) list = [
   "c05_area", cmd_area;
